@@ -21,6 +21,7 @@ def run(e, R, tier):
         P.r_register_who,
         P.r_reducers_flow,
         P.r_pickler_name,
+        P.r_pickler_select,
         P.r_reduce_arity,
         lambda e, R: S.r_state_sym(e, R, which=("Queue", "SimpleQueue")),
     ])
